@@ -356,6 +356,23 @@ func handcrafted() []hcase {
 		add(V, fmt.Sprintf("scalar type %d, zeros", tid), cat([]byte{byte(tid)}, rep([]byte{0}, 24)))
 		add(V, fmt.Sprintf("array of 2 x type %d, zeros", tid), cat([]byte{byte(0x80 | tid)}, le32(2), rep([]byte{0}, 48)))
 	}
+	// the limits: ua.MaxNestingLevel (100 values inside each other), array length <= remaining bytes, MaxVariantArrayDimensions (32)
+	for _, k := range []int{98, 99, 100, 101} {
+		add(V, fmt.Sprintf("limit: Variant chain depth %d", k), cat(rep([]byte{0x18}, k), []byte{1, 1}))
+		add(DI, fmt.Sprintf("limit: DiagnosticInfo chain depth %d", k), cat(rep([]byte{0x40}, k), []byte{0}))
+		add(DV, fmt.Sprintf("limit: DataValue/Variant chain depth %d", k), cat(rep([]byte{0x01, 0x17}, k/2), []byte{0}))
+		// Variant -> ExtensionObject(XML body is a leaf; here: unknown type, body skipped) / Variant -> DataValue -> Variant ...
+		add(V, fmt.Sprintf("limit: Variant/DataValue/DiagnosticInfo mixed chain %d", k),
+			cat(rep([]byte{0x17, 0x01}, k/2), []byte{0x19}, rep([]byte{0x40}, k%2+1), []byte{0}))
+	}
+	for _, n := range []int{31, 32, 33, 64} {
+		add(V, fmt.Sprintf("limit: %d dimensions of 1", n), cat([]byte{0xc6}, le32(1), le32(9), le32(uint32(n)), rep(le32(1), n)))
+	}
+	for _, n := range []int{1, 2, 7} {
+		add(V, fmt.Sprintf("limit: %d bytes announce %d elements (Byte)", n, n), cat([]byte{0x83}, le32(uint32(n)), rep([]byte{5}, n)))
+		add(V, fmt.Sprintf("limit: %d bytes announce %d elements (Byte)", n, n+1), cat([]byte{0x83}, le32(uint32(n+1)), rep([]byte{5}, n)))
+		add(V, fmt.Sprintf("limit: %d null Variants announce %d followed by dimensions", n, n), cat([]byte{0xd8}, le32(uint32(n)), rep([]byte{0}, n), le32(1), le32(uint32(n))))
+	}
 	add(V, "6000 dimensions of 1", cat([]byte{0xc6}, le32(1), le32(9), le32(6000), rep(le32(1), 6000)))
 	add(V, "array length 65536", cat([]byte{0x86}, le32(65536)))
 	for _, k := range []int{1, 10, 100, 1000} {
